@@ -32,6 +32,7 @@ assert os.environ.get("NUMBA_DISABLE_JIT"), "the Layer-A recorder runs the inter
 import nucs.heuristics.heuristics as hh  # noqa: E402
 import nucs.propagators.propagators as pp  # noqa: E402
 import nucs.solvers.backtrack_solver as bs  # noqa: E402
+import nucs.solvers.bound_consistency_algorithm as bca  # noqa: E402
 import nucs.solvers.consistency_algorithms as ca  # noqa: E402
 import nucs.solvers.shaving_consistency_algorithm as sh  # noqa: E402
 from nucs.solvers.backtrack_solver import BacktrackSolver  # noqa: E402
@@ -69,6 +70,7 @@ class Ctx:
     calls = None       # optional: distinct propagator calls met (for the call corpus)
     cut = False
     nested_probes = False
+    strict = False     # also record the mechanism-level events (pop, filter output, queue snapshots) for MechTrace
     tt = 0             # the stack level the recorder believes is current (resumes are recognised by the state)
 
 
@@ -110,7 +112,7 @@ def _sync():
     while C.tt > t:
         C.tt -= 1
         _emit({"k": "R", "d": _d(), "ok": True, "top2": C.tt, "box": _box(C.tt), "en": _en(C.tt), "same": True,
-               "synth": True})
+               "synth": True, "q": [bool(x) for x in C.solver.triggered_propagators]})
     C.tt = t
 
 
@@ -132,6 +134,8 @@ def wrap_cd(i, f):
         inbox = domains.tolist() if C.calls is not None else None
         st = int(f(domains, params))
         cur["f"].append([st, None])
+        if C.strict:
+            _emit({"k": "f", "d": _d(), "st": st, "out": domains.tolist()})
         if C.calls is not None and len(C.calls) < 400:
             key = (NAMES.get(i, str(i)), tuple(int(x) for x in params), tuple(map(tuple, inbox)))
             if key not in C.calls:
@@ -194,6 +198,8 @@ def wrap_ca(alg, f):
         rec = {"f": [], "pre": None, "trunc": False}
         if alg == 0:
             C.passes.append(rec)
+            if C.strict:
+                _emit({"k": "p0", "d": _d()})
         try:
             r = int(f(*a))
         except _Abort:
@@ -201,7 +207,8 @@ def wrap_ca(alg, f):
                 C.passes.pop()
                 if rec["trunc"]:
                     e.update({"st": -1, "top2": _top(), "out": _box(), "en2": _en(), "stack": [], "ens": [],
-                              "f": [[x[0], bool(x[1])] for x in rec["f"]], "probes": [], "stats": _stats(), "trunc": True})
+                              "f": [[x[0], bool(x[1])] for x in rec["f"]], "probes": [], "stats": _stats(), "trunc": True,
+                              "q": []})
                     C.ev.append(e)
             if outer_shaving:
                 C.shaving -= 1
@@ -226,7 +233,8 @@ def wrap_ca(alg, f):
         e.update({"st": r, "top2": top2, "out": _box(), "en2": _en(),
                   "stack": s.shr_domains_stack[:top2].tolist(),
                   "ens": [[bool(x) for x in row] for row in s.not_entailed_propagators_stack[:top2]],
-                  "f": [[x[0], bool(x[1])] for x in rec["f"]], "probes": [], "stats": _stats()})
+                  "f": [[x[0], bool(x[1])] for x in rec["f"]], "probes": [], "stats": _stats(),
+                  "q": [bool(x) for x in a[14]]})
         if r != 0 and (e["d"] == 0 or C.nested_probes) and C.want_probes:
             e["probes"] = [_probe(a, p) for p in range(len(a[14])) if a[11][top2][p]]
         _emit(e)
@@ -278,7 +286,8 @@ def wrap_bt(f):
             below = (_box(t0 - 1), _en(t0 - 1))
         ok = bool(f(statistics, nes, upd, top, trig, triggers))
         e = {"k": "R", "d": _d(), "ok": ok, "top2": int(top[0]), "box": _box(), "en": _en(),
-             "same": below is None or (below[0] == _box() and below[1] == _en()), "synth": False}
+             "same": below is None or (below[0] == _box() and below[1] == _en()), "synth": False,
+             "q": [bool(x) for x in trig]}
         C.tt = int(top[0])
         _emit(e)
         return ok
@@ -318,6 +327,25 @@ def wrap_solve_one(f):
     return g
 
 
+def wrap_pop(f):
+    def g(trig, prev):
+        r = int(f(trig, prev))
+        if C.strict and not C.probing and C.solver is not None:
+            _emit({"k": "q", "d": _d(), "r": r, "trig": [bool(x) for x in trig]})
+        return r
+
+    return g
+
+
+def wrap_add(f):
+    def g(trig, ne_row, triggers, dom_idx, events):
+        f(trig, ne_row, triggers, dom_idx, events)
+        if C.strict and not C.probing and C.solver is not None:
+            _emit({"k": "a", "d": _d(), "dom": int(dom_idx), "events": int(events), "trig": [bool(x) for x in trig]})
+
+    return g
+
+
 def install():
     pp.COMPUTE_DOMAINS_FCTS[:] = [wrap_cd(i, f) for i, f in enumerate(pp.COMPUTE_DOMAINS_FCTS)]
     ca.CONSISTENCY_ALG_FCTS[:] = [wrap_ca(i, f) for i, f in enumerate(ca.CONSISTENCY_ALG_FCTS)]
@@ -330,6 +358,9 @@ def install():
     bt = wrap_bt(bs.backtrack)
     bs.backtrack = bt
     sh.backtrack = bt
+    bca.pop_propagator = wrap_pop(bca.pop_propagator)
+    bs.add_propagators = wrap_add(bs.add_propagators)
+    sh.add_propagators = wrap_add(sh.add_propagators)
     bs.reset = wrap_reset(bs.reset)
     bs.decrease_max = wrap_tighten(bs.decrease_max, "min")
     bs.increase_min = wrap_tighten(bs.increase_min, "max")
@@ -437,7 +468,12 @@ def run_item(item, interp_timeout=20.0):
         prob, _ = make_solver(item["P"], item["cfg"])
     Pd = problems.from_nucs(prob, NAMES)
     Pd["trig"] = prob.triggers.tolist()
-    out = {"id": item["id"], "P": Pd, "cfg": {k: item["cfg"].get(k) for k in ("ca", "vh", "dh", "height")},
+    nd = len(Pd["doms"])
+    cfgx = {"ca": item["cfg"].get("ca", 0), "vh": item["cfg"].get("vh", 0), "dh": item["cfg"].get("dh", 0),
+            "height": item["cfg"].get("height", 64), "decision": item["cfg"].get("decision") or list(range(nd)),
+            "vparams": item["cfg"].get("vparams") or [], "dparams": item["cfg"].get("dparams") or [],
+            "mode": item.get("mode", "solve"), "var": item.get("var", 0), "ent": 1}
+    out = {"id": item["id"], "P": Pd, "cfgx": cfgx, "cfg": {k: item["cfg"].get(k) for k in ("ca", "vh", "dh", "height")},
            "mode": item.get("mode", "solve"), "var": item.get("var", -1), "limit": item.get("limit", -1),
            "cut": bool(C.cut), "slow": slow, "ev": C.ev}
     return out
@@ -449,6 +485,7 @@ def main():
     install()
     C.want_probes = job.get("probes", True)
     C.nested_probes = job.get("nested_probes", False)
+    C.strict = job.get("strict", False)
     if job.get("calls"):
         C.calls = {}
     t0 = time.time()
